@@ -131,7 +131,11 @@ class Engine(GenericConcreteEngine[Callable[..., Any]]):
                     return tree, commutator.done, commutator.messages
                 else:
                     upstream, done, messages = self.backtrack_unary(commutator.first, target, preferred)
-                    if upstream is not target:
+                    if upstream is not target or (done and commutator.second != tree.operation):
+                        # The second condition covers an upstream insertion
+                        # that was elided as a no-op but still requires the
+                        # existing operation to be replaced (e.g. a projection
+                        # that drops this calculation).
                         result = commutator.second._finish_apply(upstream)
                     else:
                         result = tree
